@@ -4,7 +4,7 @@ descriptions.  A "ufo spec" is a dict:
   info      {attr: value}
   glyphs    [glyph spec]            (default layer, in creation order)
   layers    {layerName: [glyph spec]}   (optional extra layers)
-  lib, kerning [[l, r, v]], groups {name: [..]}, features "text"
+  lib, layerLib (lib of the default layer), kerning [[l, r, v]], groups {name: [..]}, features "text"
   glyphOrder  list | None           (written to lib public.glyphOrder when not None)
 
   glyph spec: name, width, height, unicodes [int], contours [[ [x, y, type|None, smooth] ]],
@@ -72,6 +72,8 @@ def build_ufo(spec, lib="defcon"):
             _fill_glyph(g, gs)
     for k, v in (spec.get("lib") or {}).items():
         font.lib[k] = copy.deepcopy(v)
+    for k, v in (spec.get("layerLib") or {}).items():
+        font.layers.defaultLayer.lib[k] = copy.deepcopy(v)
     if spec.get("glyphOrder") is not None:
         font.lib["public.glyphOrder"] = list(spec["glyphOrder"])
     for name, members in (spec.get("groups") or {}).items():
